@@ -12,6 +12,9 @@ def keep(o):
 def watch_failures(ck):
     """watch mode: a version of an input that makes the script fail, dependents must stay blocked until the repair"""
     found, _known = watchrun.campaign(ck, 'C07', 8 if ck.tier == 'quick' else 90, break_bias=True)
+    found += engine.fixed_runs(ck, 'C07', engine.KILLED_DEPENDENCY + engine.FAILURE_NEXT_TO_RUNNING,
+                               'a dependency whose script dies from a signal (no dependent starts, the run fails); a build failing '
+                               'while an independent build runs and a service is up (non-zero exit naming it)')
     return found
 
 
